@@ -11,6 +11,9 @@ use std::ffi::OsString;
 use std::path::{Path, PathBuf};
 use std::sync::Arc;
 
+/// Number of runs that ended in an error of the runner itself (never a verdict on the subject).
+pub static MACHINERY_ERRORS: std::sync::atomic::AtomicU64 = std::sync::atomic::AtomicU64::new(0);
+
 #[derive(Clone, Debug, Default)]
 pub struct Input {
     /// Files in walk order: (root-relative path, content).
@@ -203,7 +206,24 @@ macro_rules! pipeline {
             let order: Vec<PathBuf> = order.iter().map(PathBuf::from).collect();
             context = match verif_hooks::reorder(context, &order, 100_000) {
                 Ok(c) => c,
-                Err(_) => return Outcome::Error { stage: "machinery", message: "requested map order not reachable".into(), blocks: vec![] },
+                Err(c) => {
+                    // The map does not hold exactly the requested files (a subject that loses or
+                    // gains a file must be judged on what it does, not hidden behind a harness
+                    // error): keep the requested order for the files that are present and append
+                    // the others in path order.
+                    let mut present: Vec<PathBuf> = verif_hooks::dump(&c).into_iter().map(|b| b.file).collect();
+                    present.sort();
+                    present.dedup();
+                    let mut fallback: Vec<PathBuf> = order.iter().filter(|p| present.contains(p)).cloned().collect();
+                    fallback.extend(present.iter().filter(|p| !order.contains(p)).cloned());
+                    match verif_hooks::reorder(c, &fallback, 100_000) {
+                        Ok(c) => c,
+                        Err(_) => {
+                            MACHINERY_ERRORS.fetch_add(1, std::sync::atomic::Ordering::Relaxed);
+                            return Outcome::Error { stage: "machinery", message: "requested map order not reachable".into(), blocks: vec![] };
+                        }
+                    }
+                }
             };
         }
         let dump = verif_hooks::dump(&context);
@@ -226,7 +246,10 @@ macro_rules! pipeline {
                 let value = serde_json::to_value(violation.as_simple_diagnostic()).expect("diagnostic serialises");
                 match diag_from_value(&file.display().to_string(), &value) {
                     Some(d) => diags.push(d),
-                    None => return Outcome::Error { stage: "machinery", message: format!("unreadable diagnostic {value}"), blocks: dump },
+                    None => {
+                        MACHINERY_ERRORS.fetch_add(1, std::sync::atomic::Ordering::Relaxed);
+                        return Outcome::Error { stage: "machinery", message: format!("unreadable diagnostic {value}"), blocks: dump };
+                    }
                 }
             }
         }
